@@ -84,24 +84,24 @@ pub fn run(tier: &str) -> i32 {
     // (protocol, alphabet name, custom keys, typed instance?)
     let mut plan: Vec<(Proto, &str, usize, bool)> = Vec::new();
     if quick {
-        plan.push((Proto::V4L, "quick", 3, false));
-        plan.push((Proto::V4L, "ws", 8, false));
-        plan.push((Proto::V4L, "full", 1, false)); // one key, every value of the alphabet
-        plan.push((Proto::V4L, "hostile", 1, false)); // one key, every hostile text as value
-        plan.push((Proto::V4L, "quick", 1, true));
+        plan.push((Proto::workhorse(), "quick", 3, false));
+        plan.push((Proto::workhorse(), "ws", 8, false));
+        plan.push((Proto::workhorse(), "full", 1, false)); // one key, every value of the alphabet
+        plan.push((Proto::workhorse(), "hostile", 1, false)); // one key, every hostile text as value
+        plan.push((Proto::workhorse(), "quick", 1, true));
         for p in Proto::ALL {
-            if p != Proto::V4L {
+            if p != Proto::workhorse() {
                 plan.push((p, "quick", if matches!(p, Proto::V3P | Proto::V1P) { 1 } else { 2 }, false));
             }
         }
     } else {
-        plan.push((Proto::V4L, "full", 4, false));
-        plan.push((Proto::V4L, "quick", 5, false));
-        plan.push((Proto::V4L, "ws", 8, false));
-        plan.push((Proto::V4L, "hostile", 2, false));
-        plan.push((Proto::V4L, "quick", 1, true));
+        plan.push((Proto::workhorse(), "full", 4, false));
+        plan.push((Proto::workhorse(), "quick", 5, false));
+        plan.push((Proto::workhorse(), "ws", 8, false));
+        plan.push((Proto::workhorse(), "hostile", 2, false));
+        plan.push((Proto::workhorse(), "quick", 1, true));
         for p in Proto::ALL {
-            if p != Proto::V4L {
+            if p != Proto::workhorse() {
                 plan.push((p, "quick", if matches!(p, Proto::V3P | Proto::V1P) { 2 } else { 3 }, false));
                 if !matches!(p, Proto::V3P | Proto::V1P) {
                     plan.push((p, "quick", 1, true));
@@ -138,7 +138,7 @@ pub fn run(tier: &str) -> i32 {
 
     // ---- engine A: unmerged sequences to depth 3 over the quick alphabet with typed claims, v4.local
     let values = values_for("quick");
-    let seq_model = GenericBuilderModel { proto: Proto::V4L, values: values.clone(), ncustom: 2, typed: true };
+    let seq_model = GenericBuilderModel { proto: Proto::workhorse(), values: values.clone(), ncustom: 2, typed: true };
     let alphabet = seq_model.alphabet();
     let depth = if quick { 2 } else { 3 };
     let firsts: Vec<usize> = (0..alphabet.len()).collect();
@@ -150,11 +150,11 @@ pub fn run(tier: &str) -> i32 {
                 for _ in 1..len {
                     path.push(alphabet[c.choose("call", alphabet.len())].clone());
                 }
-                let v = replay_and_judge(Proto::V4L, &path, &values);
+                let v = replay_and_judge(Proto::workhorse(), &path, &values);
                 acc.executions += 1;
                 acc.see(&path);
                 acc.bump(if v.is_some() { "sequence:disagrees" } else { "sequence:conforms" });
-                record(Proto::V4L, "quick", &path, &v, &values, &mut acc);
+                record(Proto::workhorse(), "quick", &path, &v, &values, &mut acc);
             });
             acc.choice_points += pts;
         }
@@ -229,7 +229,7 @@ pub fn run(tier: &str) -> i32 {
     {
         use crate::adapter::{BEvent, BOp, ClaimSpec, Layer, Out, PEvent, POp};
         let counts: Vec<usize> = if quick { vec![2, 3, 127, 128, 129, 255, 256, 257, 511, 512, 513, 65_535, 65_536, 65_537] } else { (2..=1_030).chain([4_095, 4_096, 4_097, 65_535, 65_536, 65_537, 131_072, 131_073]).collect() };
-        let units: Vec<(Proto, usize)> = [Proto::V4L, Proto::V2P].iter().flat_map(|p| counts.iter().map(move |n| (*p, *n))).collect();
+        let units: Vec<(Proto, usize)> = { let mut v = vec![Proto::workhorse(), Proto::V2P.or_workhorse()]; v.sort(); v.dedup(); v }.iter().flat_map(|p| counts.iter().map(move |n| (*p, *n))).collect();
         let accs = par_units(&units, |(p, n)| {
             let mut acc = Acc::default();
             crate::adapter::freeze_default_clock();
